@@ -14,8 +14,8 @@ TARGETS = ["C16_Props.vo", "C16_Check.vo"]
 HARNESS = ["control/common_test.go", "control/c16_test.go"]
 EXPORT = ("component/outbound/dialer/zz_verif_c16_export.go", "dialer/c16_export.go")
 DOMS = ["Tcp4", "Tcp6", "DnsUdp4", "DnsUdp6", "DataUdp4", "DataUdp6"]
-MOD = (1 << 61) - 1
-MULT = 1000003
+MASK = (1 << 62) - 1
+MULT = 131
 
 
 # ------------------------------------------------------------------------------------------------
@@ -153,11 +153,13 @@ def gen_case(rng, big=False, reload_p=0.35):
         groups.append({"policy": pol, "members": members, "offsets": offs})
     tol = rng.choice([0, 0, 1000000, 1000000000])
     ops = []
-    target = rng.randint(5, 200 if big else 90)
+    target = rng.randint(5, 200 if big else 70)
 
     def fail(n, dom, kind, err=None, alt=None):
         if err is None:
             err = rng.choice(COUNTED)
+        if kind == "check" and err == "nil":
+            err = "timeout"     # (false, nil) from a probe means "not applicable"; that is the probe_skip op
         return {"op": "fail", "n": n, "dom": dom, "kind": kind, "err": err, "alt": bool(rng.random() < 0.2) if alt is None else alt}
 
     while len(ops) < target:
@@ -225,7 +227,7 @@ def gen_case(rng, big=False, reload_p=0.35):
 def hash_list(xs):
     h = 7
     for x in xs:
-        h = (h * MULT + x + 1) % MOD
+        h = (h * MULT + x + 1) & MASK
     return h
 
 
@@ -253,7 +255,11 @@ def encode_step(case, st, bits):
     for row in st["dialers"]:
         for i in range(8):
             full += row[i]
-    full += flat_log(st["trans"], (0, 1, 2)) + flat_log(st["bits"], (0, 1, 3))
+    full += flat_log(st["trans"], (0, 1, 2))
+    for gi, g in enumerate(case["groups"]):
+        for dom in range(6):
+            vs = [b[3] for b in st["bits"] if b[0] == gi and b[1] == dom]
+            full += [len(vs)] + vs
     for gi, g in enumerate(case["groups"]):
         if keeps_sets(g):
             for dom in range(6):
@@ -268,19 +274,25 @@ def encode_step(case, st, bits):
     alive = []
     for row in st["dialers"]:
         alive += [row[IDX[dom]][0] for dom in range(6)]
-    grp = []
+    grp, grpn = [], []
     for gi, g in enumerate(case["groups"]):
         if keeps_sets(g):
+            mem = []
             for dom in range(6):
                 ms = [m for m in g["members"] if m in sets[(gi, dom)]["members"]]
-                grp += [len(ms)] + ms
+                mem += [len(ms)] + ms
+            grp += mem
+            grpn += mem
             if is_min(g):
                 grp += [bits[(gi, dom)] for dom in range(6)]
-    return full, alive + flat_log(st["trans"], (0, 1, 2)) + grp, alive + grp
+                # normalised: a slot that reads 0 although the set has a member is reported as 1
+                grpn += [1 if (bits[(gi, dom)] or sets[(gi, dom)]["members"]) else 0 for dom in range(6)]
+    lg = flat_log(st["trans"], (0, 1, 2))
+    return full, (alive + lg + grp, alive + lg + grpn), (alive + grp, alive + grpn)
 
 
 def lat_term(st):
-    return clist(["(%d, %d, %s, %s)" % (n, g, DOMS[dom], ("(Some (%d)%%Z)" % raw) if has else "None") for n, g, dom, has, raw in st["lats"]])
+    return clist(["L %d %d %s %d%%Z" % (n, g, DOMS[dom], raw) for n, g, dom, has, raw in st["lats"] if has])
 
 
 def ev_term(op, st):
@@ -315,13 +327,13 @@ def case_to_coq(case, res):
                                         clist(["(%d, (%d)%%Z)" % (m, o) for m, o in zip(g["members"], g["offsets"])])) for g in case["groups"]]),
         case["tolerance"])
     bits = {}
-    f0, p0, _ = encode_step(case, res["init"], bits)
+    f0, (p0, _), _ = encode_step(case, res["init"], bits)
     steps = []
     for op, st in zip(case["ops"], res["steps"]):
         full, pl, pn = encode_step(case, st, bits)
-        proj = pn if op["op"] == "reload" else pl
-        steps.append("(Build_obs_step %s %s %s %s)" % (ev_term(op, st), vlib.cbool(spec_ignorable(op)) if op["op"] == "fail" else "false",
-                                                       hex(hash_list(full)), hex(hash_list(proj))))
+        proj, projn = pn if op["op"] == "reload" else pl
+        steps.append("(Build_obs_step %s %s %s %s %s)" % (ev_term(op, st), vlib.cbool(spec_ignorable(op)) if op["op"] == "fail" else "false",
+                                                          hex(hash_list(full)), hex(hash_list(proj)), hex(hash_list(projn))))
     keys = clist(["(%d, %s, %d)" % (g, DOMS[dom], k) for g, dom, k in res["keys"]])
     return "(Build_obs_case %s %d%%nat %d%%nat %s %s %s\n  %s)" % (cfg, len(case["dialers"]), len(ids), hex(hash_list(f0)), hex(hash_list(p0)), keys, clist(steps))
 
@@ -376,91 +388,88 @@ def has_code(errs, codes):
     return any(code in codes for (_, code, _) in errs)
 
 
-def shrink(sc, binary, case, codes):
-    """batch-wise greedy shrinking: shortest failing prefix, then single-op deletions, then config reductions"""
+def shrink(sc, binary, case, pred, budget=14):
+    """batched delta debugging on the op list (shortest failing prefix, then chunk deletions of halving size),
+    then config reductions.  pred(errs) says whether a candidate still shows the failure."""
     def failing(cands, tag):
         errs, _, fatal, _ = evaluate(sc, binary, cands, tag)
         if fatal:
             return []
-        return [i for i in range(len(cands)) if i in errs and has_code(errs[i], codes)]
+        return [i for i in range(len(cands)) if i in errs and pred(errs[i])]
     ops = case["ops"]
-    cands = [dict(case, ops=ops[:k]) for k in range(1, len(ops) + 1)]
-    f = failing(cands, "shp")
-    if f:
-        case = cands[f[0]]
-    for rnd in range(12):
+    cands = [dict(case, ops=ops[:k]) for k in range(1, len(ops))]
+    if cands:
+        f = failing(cands, "shp")
+        budget -= 1
+        if f:
+            case = cands[f[0]]
+    chunk = max(1, len(case["ops"]) // 2)
+    while budget > 0:
         ops = case["ops"]
-        cands = [dict(case, ops=ops[:i] + ops[i + 1:]) for i in range(len(ops) - 1)]
-        # drop a group / zero tolerance / drop alternative spellings
-        for gi in range(len(case["groups"])):
-            cands.append(dict(case, groups=case["groups"][:gi] + case["groups"][gi + 1:]))
-        if case["tolerance"]:
-            cands.append(dict(case, tolerance=0))
-        if any(o.get("alt") for o in ops):
-            cands.append(dict(case, ops=[dict(o, alt=False) for o in ops]))
+        cands = [dict(case, ops=ops[:i] + ops[i + chunk:]) for i in range(0, len(ops), chunk) if len(ops) > chunk or i > 0]
+        cands = [c for c in cands if c["ops"]]
+        if chunk == 1:
+            for gi in range(len(case["groups"])):
+                cands.append(dict(case, groups=case["groups"][:gi] + case["groups"][gi + 1:]))
+            for gi, g in enumerate(case["groups"]):
+                for k in range(len(g["members"])):
+                    g2 = dict(g, members=g["members"][:k] + g["members"][k + 1:], offsets=g["offsets"][:k] + g["offsets"][k + 1:])
+                    cands.append(dict(case, groups=case["groups"][:gi] + [g2] + case["groups"][gi + 1:]))
+            if case["tolerance"]:
+                cands.append(dict(case, tolerance=0))
+            if any(o.get("alt") for o in ops):
+                cands.append(dict(case, ops=[dict(o, alt=False) for o in ops]))
         if not cands:
             break
-        f = failing(cands, "shd%d" % rnd)
-        if not f:
+        f = failing(cands, "shd")
+        budget -= 1
+        if f:
+            case = cands[f[0]]
+            chunk = min(chunk, max(1, len(case["ops"]) // 2))
+        elif chunk > 1:
+            chunk = max(1, chunk // 2)
+        else:
             break
-        # apply as many independent single deletions as possible: take the first, then retry
-        case = cands[f[-1]] if f[-1] >= len(ops) - 1 else cands[f[0]]
     return case
 
 
-def describe(case, res, step_errs, spec_proj):
-    """name the component of the projected observation that differs at the first impl<>spec step (matcher ids)"""
+def describe(case, res, errs, codes):
+    """what the implementation shows at the first disagreeing step (from its own dump)"""
+    first = min(s for (s, code, _) in errs if code in codes)
+    info = {"step": first, "step_numbering": "0 = initial state, k = after the k-th op"}
     bits = {}
     encode_step(case, res["init"], bits)
-    first = min(s for (s, code, _) in step_errs if code == 2)
-    info = {"step": first}
     for k, (op, st) in enumerate(zip(case["ops"], res["steps"]), 1):
-        full, pl, pn = encode_step(case, st, bits)
-        if k == first:
-            impl = pn if op["op"] == "reload" else pl
-            spec = spec_proj
-            info.update(op=op, impl_projection=impl, spec_projection=spec)
-            nd = len(case["dialers"])
-            na = 6 * nd
-            cats = []
-            if impl[:na] != (spec or [])[:na]:
-                cats.append("alive")
-            sets = {(s["g"], s["dom"]): s for s in st["sets"]}
-            stale = []
-            for gi, g in enumerate(case["groups"]):
-                if is_min(g):
-                    for dom in range(6):
-                        s = sets[(gi, dom)]
-                        if s["members"] and bits[(gi, dom)] == 0:
-                            stale.append({"group": gi, "type": DOMS[dom], "members": s["members"], "member_latencies": s["lats"]})
-            if stale:
-                cats.append("bit0_with_alive_member")
-                info["stale_slots"] = stale
-            empty = []
-            for gi, g in enumerate(case["groups"]):
-                if keeps_sets(g) and g["members"]:
-                    for dom in range(6):
-                        if not sets[(gi, dom)]["members"]:
-                            empty.append({"group": gi, "type": DOMS[dom]})
-            if op["op"] == "reload" and empty:
-                cats.append("reload_left_group_empty")
-                info["empty_sets"] = empty
-            info["categories"] = cats
-            break
-    matchers = []
-    cats = info.get("categories", [])
-    if cats == ["bit0_with_alive_member"] and all(all(l == 0 for l in s["member_latencies"]) for s in info["stale_slots"]):
-        matchers.append("C16/bit-not-set-after-latencyless-revival")
-    if "reload_left_group_empty" in cats:
-        matchers.append("C16/reload-floor-undone-by-shared-node")
-    return info, matchers
+        encode_step(case, st, bits)
+        if k != first:
+            continue
+        sets = {(s["g"], s["dom"]): s for s in st["sets"]}
+        info["op"] = op
+        info["alive_flags"] = {"node%d" % n: [row[IDX[dom]][0] for dom in range(6)] for n, row in enumerate(st["dialers"])}
+        info["transition_callbacks"] = st["trans"]
+        stale, empty = [], []
+        for gi, g in enumerate(case["groups"]):
+            for dom in range(6):
+                if not keeps_sets(g):
+                    continue
+                s = sets[(gi, dom)]
+                if is_min(g) and s["members"] and bits[(gi, dom)] == 0:
+                    stale.append({"group": gi, "type": DOMS[dom], "alive_members": s["members"], "connectivity_slot": 0})
+                if g["members"] and not s["members"]:
+                    empty.append({"group": gi, "type": DOMS[dom]})
+        if stale:
+            info["slot_0_with_alive_member"] = stale
+        if op["op"] == "reload":
+            info["groups_without_alive_member_after_reload"] = empty
+            info["select_strict_finds_node"] = st.get("sel")
+    return info
 
 
 def main(argv):
     args = vlib.main_args(argv)
     out = vlib.Outcome(PID, args.tier, args.seed)
     rng = vlib.rng_for(args.seed, PID)
-    n_cases = 260 if args.tier == "quick" else 5000
+    n_cases = 110 if args.tier == "quick" else 3000
     cov = {"obligations": 0, "discharged": 0, "checker_cmd": "", "trusted_base": [], "evaluations": 0, "distinct_nontrivial": 0,
            "rule": "", "samples": [], "traces_validated_against_impl": 0}
     out.coverage = cov
@@ -476,10 +485,12 @@ def main(argv):
                trusted_base=vlib.TRUSTED_BASE_COMMON + [
                    "verif-tagged export file harness/dialer/c16_export.go injected into package dialer by -overlay (thin wrappers: Check with a supplied probe function, set dump, policy latency, tracker count, suppression read-out / quiesce-elapsed / reset)",
                    "latencies the alive sets read are taken from the implementation after each event and given to the model as data (the averaging arithmetic is not modelled)",
-                   "Go maps modelled as total functions; order of group notification across different groups is not observable (independent sets)"])
+                   "Go maps modelled as total functions; order of notification across different groups is not observable (independent sets)",
+                   "full dumps are compared through a 62-bit multiplicative hash computed identically in python and Coq"])
     out.assumptions = ["events are sequential (the dialer mutex serialises them); probe execution, timers of recovery back-off and the 15-minute expiry of failure entries are outside the model",
-                       "the end of the 20 s quiesce window after a reload is an event (the harness sets the deadline to the past instead of waiting)",
-                       "reload cases: groups with the random policy have at most one member (their fallback pick is random)"]
+                       "the end of the 20 s quiesce window after a reload is an event (the harness moves the deadline into the past instead of waiting)",
+                       "reload cases: groups with the random policy have at most one member (their fallback pick is random)",
+                       "a probe failing with a closed-connection error (not context.Canceled) is counted by the probe driver; such errors are generated only for traffic / transactional reports"]
 
     with vlib.Scratch() as sc:
         extra = {os.path.join(vlib.REPO, EXPORT[0]): os.path.join(vlib.VERIF, "harness", EXPORT[1])}
@@ -492,7 +503,8 @@ def main(argv):
             payload = json.load(open(args.replay))["replay"]
             case = payload.get("case", payload)
             errs, _, fatal, _ = evaluate(sc, binary, [case], "replay")
-            print("replay:", "fatal: " + fatal if fatal else ("agrees (impl = model = spec)" if not errs else "disagreements (step, code): %s  [1 impl<>model 2 impl<>spec 3 model<>spec]" % errs[0]))
+            print("replay:", "fatal: " + fatal if fatal else ("agrees (impl = model = spec)" if not errs else
+                  "disagreements (step, code): %s  [1 impl<>model 2 impl<>spec 3 model<>spec 6 impl<>spec beyond stale slots]" % [(a, b) for a, b, _ in errs[0]]))
             return 1 if (fatal or errs) else 0
         corpus = []
         cdir = os.path.join(vlib.VERIF, "corpus", PID)
@@ -501,76 +513,86 @@ def main(argv):
                 if n.endswith(".json"):
                     corpus.append(json.load(open(os.path.join(cdir, n))))
         cases = corpus + [gen_case(rng, big=(args.tier == "thorough" and i % 3 == 0)) for i in range(n_cases)]
-        all_err, sigs, fatal = {}, [], None
-        shard = 130 if args.tier == "quick" else 250
-        for s in range(0, len(cases), shard):
-            errs, sg, fatal, _ = evaluate(sc, binary, cases[s:s + shard], "b%d" % s)
-            if fatal:
-                break
-            for i, e in errs.items():
-                all_err[s + i] = e
-            sigs += sg
-        SPEC, TIE = (2, 9), (1, 3, 4)
+        all_err, all_res, sigs, fatal = {}, {}, [], None
+
+        def run_all(cs, base, tagp):
+            nonlocal fatal, sigs
+            shard = 125 if args.tier == "quick" else 250
+            for s in range(0, len(cs), shard):
+                errs, sg, f, results = evaluate(sc, binary, cs[s:s + shard], "%s%d" % (tagp, s))
+                if f:
+                    fatal = f
+                    return
+                for i, e in errs.items():
+                    all_err[base + s + i] = e
+                    all_res[base + s + i] = results[i]
+                sigs += sg
+
+        run_all(cases, 0, "b")
+        HARD, SOFT, TIE = (6, 9), (2,), (1, 3, 4)
+        is_hard = lambda e: has_code(e, HARD)
+        is_soft = lambda e: has_code(e, SOFT) and not has_code(e, HARD)
         widened = False
-        if not fatal and (not proof_ok or any(not has_code(e, SPEC) for e in all_err.values())) and not any(has_code(e, SPEC) for e in all_err.values()):
+        if not fatal and (not proof_ok or any(has_code(e, TIE) for e in all_err.values())) and not any(has_code(e, HARD + SOFT) for e in all_err.values()):
             widened = True
             extra_cases = [gen_case(rng, big=True) for _ in range(10 * n_cases if args.tier == "quick" else 2 * n_cases)]
-            for s in range(0, len(extra_cases), 250):
-                errs, sg, f2, _ = evaluate(sc, binary, extra_cases[s:s + 250], "w%d" % s)
-                if f2:
-                    break
-                for i, e in errs.items():
-                    all_err[len(cases) + s + i] = e
-                if any(has_code(e, SPEC) for e in errs.values()):
-                    break
+            base = len(cases)
             cases += extra_cases
+            run_all(extra_cases, base, "w")
         n_eval = len(cases)
-        spec_fail = sorted(i for i, e in all_err.items() if has_code(e, SPEC))
-        tie_fail = sorted(i for i, e in all_err.items() if has_code(e, TIE) and not has_code(e, SPEC))
-        reported = 0
-        seen_matchers = set()
-        # smallest failing histories first; each distinct class is reported once
-        for i in sorted(spec_fail, key=lambda i: len(cases[i]["ops"]))[:6]:
-            if has_code(all_err[i], (9,)):
-                out.violation("impl_panic", {"case": cases[i], "errors": all_err[i]}, "implementation panicked on this history")
-                reported += 1
+        hard = sorted((i for i, e in all_err.items() if is_hard(e)), key=lambda i: len(cases[i]["ops"]))
+        soft = sorted((i for i, e in all_err.items() if is_soft(e)), key=lambda i: len(cases[i]["ops"]))
+        tie_fail = sorted(i for i, e in all_err.items() if has_code(e, TIE) and not has_code(e, HARD + SOFT))
+        F12 = "C16/slot-not-set-after-silent-best"
+        if soft:
+            # the only disagreement: a connectivity slot reads 0 while the group's set for that type has a member
+            i = soft[0]
+            known = any(e["property"] == PID and e["match"] == F12 for e in out.kf["open"])
+            small = cases[i] if known else shrink(sc, binary, cases[i], is_soft)
+            errs, _, f3, results = evaluate(sc, binary, [small], "min")
+            if f3 or 0 not in errs or not is_soft(errs[0]):
+                small, errs, results = cases[i], {0: all_err[i]}, [all_res[i]]
+            info = describe(small, results[0], errs[0], SOFT)
+            out.violation("impl_vs_spec_slot", {"case": small, "errors": [(a, b) for a, b, _ in errs[0]], "first_failing_step": info, "matchers": [F12],
+                                                "how": "./check C16 --replay <this file>: after the named step a latency-policy group has an alive member for the type but its connectivity slot still holds 0"},
+                          "connectivity slot of a latency-policy group stays 0 after a node of that type revived (step %d, %s); %d histories show only this" % (info["step"], json.dumps(info.get("op")), len(soft)),
+                          matchers=[F12])
+        seen = set()
+        for i in hard[:8]:
+            e = all_err[i]
+            if has_code(e, (9,)):
+                out.violation("impl_panic", {"case": cases[i], "errors": e}, "implementation panicked on this history")
                 break
-            small = shrink(sc, binary, cases[i], (2,))
-            errs, _, f3, extra_out = evaluate(sc, binary, [small], "min", want_trace=True)
-            if f3 or 0 not in errs:
-                small, (errs, _, f3, extra_out) = cases[i], evaluate(sc, binary, [cases[i]], "min", want_trace=True)
-            results, trace = extra_out
-            first = min(s for (s, code, _) in errs[0] if code == 2)
-            spec_proj = None
-            try:
-                per_step = re.findall(r"\(\[[\d;]*\],\[([\d;]*)\]\)", trace)
-                spec_proj = [int(x) for x in per_step[first - 1].split(";") if x]
-            except Exception:
-                pass
-            info, matchers = describe(small, results[0], errs[0], spec_proj)
-            key = tuple(matchers) or ("other", tuple(info.get("categories", [])))
-            if key in seen_matchers:
+            info0 = describe(cases[i], all_res[i], e, HARD)
+            FLOOR = "C16/reload-leaves-group-without-alive-member"
+            cls = FLOOR if info0.get("groups_without_alive_member_after_reload") else "other"
+            if cls in seen:
                 continue
-            seen_matchers.add(key)
-            tag = "impl_vs_spec" if reported == 0 else "impl_vs_spec_%d" % reported
-            r = out.violation(tag, {"case": small, "errors": errs[0], "first_failing_step": info, "matchers": matchers,
-                                    "how": "./check C16 --replay <this file>  (feeds `case` to TestVerifC16; after the named step the implementation's "
-                                           "alive flags / transition callbacks / group membership / connectivity slot differ from the property)"},
-                              "after step %d (%s) the implementation disagrees with the property: %s" % (info["step"], json.dumps(info.get("op")), ", ".join(info.get("categories", []) or ["projection differs"])),
-                              matchers=matchers)
-            if r == "violation":
-                reported += 1
-        if fatal or tie_fail or not proof_ok:
-            if not spec_fail or fatal or not proof_ok:
-                what = {}
-                if not proof_ok:
-                    what["proof"] = pinfo["failed"]
-                if fatal:
-                    what["correspondence"] = fatal
-                if tie_fail:
-                    what["correspondence_case"] = {"case": cases[tie_fail[0]], "errors": all_err[tie_fail[0]]}
-                what["searched"] = "%d histories (widened=%s) with no impl<>spec disagreement" % (n_eval, widened)
-                out.violation("tie", what, "proof obligation or model correspondence no longer checks; no failing input found", no_failing_input=True)
+            seen.add(cls)
+            first_op = info0.get("op", {}).get("op")
+            pred = (lambda er: is_hard(er)) if cls == "other" else (lambda er: is_hard(er))
+            small = shrink(sc, binary, cases[i], pred)
+            errs, _, f3, results = evaluate(sc, binary, [small], "min")
+            if f3 or 0 not in errs or not is_hard(errs[0]):
+                small, errs, results = cases[i], {0: e}, [all_res[i]]
+            info = describe(small, results[0], errs[0], HARD)
+            matchers = [FLOOR] if info.get("groups_without_alive_member_after_reload") else []
+            out.violation("impl_vs_spec" if cls == "other" else "impl_vs_spec_reload",
+                          {"case": small, "errors": [(a, b) for a, b, _ in errs[0]], "first_failing_step": info, "matchers": matchers,
+                           "how": "./check C16 --replay <this file>: after the named step the implementation's alive flags / transition callbacks / group membership differ from the property"},
+                          "after step %d (%s) the implementation disagrees with the property%s" % (info["step"], json.dumps(info.get("op")),
+                              ": a non-empty group is left without an alive member" if matchers else ""),
+                          matchers=matchers)
+        if fatal or not proof_ok or (tie_fail and not hard and not soft):
+            what = {}
+            if not proof_ok:
+                what["proof"] = pinfo["failed"]
+            if fatal:
+                what["correspondence"] = fatal
+            if tie_fail:
+                what["correspondence_case"] = {"case": cases[tie_fail[0]], "errors": all_err[tie_fail[0]]}
+            what["searched"] = "%d histories (widened=%s)" % (n_eval, widened)
+            out.violation("tie", what, "proof obligation or model correspondence no longer checks; no failing input found", no_failing_input=True)
         nontrivial = len(set(s for s in sigs if int(s[0]) > 0 and int(s[2]) > 0))
         cov.update(evaluations=n_eval, distinct_nontrivial=nontrivial, distinct_signatures=len(set(sigs)),
                    rule="random histories over 1-4 nodes (shared / empty proxy addresses), 0-3 groups (3 latency policies, random, fixed; shared nodes; offsets; tolerance), "
@@ -578,7 +600,8 @@ def main(argv):
                         "forced reports, escalation bursts, suppression scopes and quiesce end, global reset, reloads; both spellings of each network type. "
                         "signature = (threshold deaths, escalations, revivals, suppressed failures, slot clears, reloads) saturated at 3; non-trivial = at least one threshold death and one revival",
                    traces_validated_against_impl=n_eval - len([i for i in all_err if has_code(all_err[i], (1,))]),
-                   impl_vs_spec_failures=len(spec_fail), impl_vs_model_only_failures=len(tie_fail),
+                   impl_vs_spec_failures=len(hard), impl_vs_spec_slot_only_failures=len(soft), impl_vs_model_only_failures=len(tie_fail),
+                   steps_evaluated=sum(len(c["ops"]) for c in cases),
                    comparisons="per step: hash of the implementation's full dump (8 slots x (alive, failCount, trafficFailCount) per node, transition callbacks, slot writes, every alive set's entries/latencies/best, tracker counts, suppression) = model; "
                                "projection (alive per node x domain, transition callbacks, members per group x type, slot value of latency groups) impl = spec and model = spec",
                    samples=[cases[len(corpus)]] if len(cases) > len(corpus) else [cases[0]], widened_search=widened)
